@@ -514,7 +514,8 @@ class MarkdownRenderer(BaseRenderer):
         """
         Renders each table cell on a table row to text. No word wrapping.
         """
-        return [next(self.span_to_lines(col.children, max_line_length=None), "") for col in row.children]
+        # (a pipe within a cell can only stem from an escaped pipe, see `TableRow`.)
+        return [next(self.span_to_lines(col.children, max_line_length=None), "").replace("|", "\\|") for col in row.children]
 
     @classmethod
     def calculate_table_column_widths(cls, col_text) -> Sequence[int]:
